@@ -444,7 +444,12 @@ func BatchFunc[T any](
 				out.err = err
 				return
 			}
-			c <- item
+			select {
+			case c <- item:
+			case <-bgCtx.Done():
+				// Closed while the batcher is not receiving (it may already have exited).
+				return
+			}
 		}
 	}()
 
